@@ -17,8 +17,7 @@ open StorageModel
     * `subRows c n` — the row contexts (in the linked entity type) of the successive elements of
                       `OpenSetCursor(n)`, as `OpenSetCursorForQuery` visits them;
     * `nilRow c`    — the context stands for an element whose `cursor.Current()` is nil (a null
-                      link inside a dotted set symbol): `uniqueIndexScanner.IsValid` takes such a
-                      row, once yielded, for the end of the scan. -/
+                      link inside a dotted set symbol): `uniqueIndexScanner` skips it. -/
 structure World (C F : Type) where
   val : C → String → SVal F
   elems : C → String → List (SVal F)
@@ -68,9 +67,11 @@ def scanCount (m nil : C → Bool) (targetOffset : Nat) (lim : Option Nat) : Lis
   | [], _, _ => 0
   | r :: rest, offset, collected =>
     if (match lim with | some l => decide (collected ≥ l) | none => false) then 0
+    else if nil r then
+      -- scanner.current == nil: an element without a key is not a row (38978b1)
+      scanCount m nil targetOffset lim rest offset collected
     else if m r then
       (if offset < targetOffset then scanCount m nil targetOffset lim rest (offset + 1) collected
-       else if nil r then 0          -- scanner.current = nil: IsValid() is false, the caller's loop ends
        else 1 + scanCount m nil targetOffset lim rest offset (collected + 1))
     else scanCount m nil targetOffset lim rest offset collected
 
